@@ -161,6 +161,8 @@ CLASSES = [
      "same-stateful-upstream-in-two-fields-next-to-another-stateful-upstream"),
     ("wrong-values", p_inner_split_over_combined_upstream, "inner-split-over-combined-upstream-output"),
     ("wrong-order", p_empty_inner_split_combined, "empty-group-of-combined-inner-split-lost-in-workflow-output"),
+    ("IndexError@lazy.py:group_values", p_fan_in_shared_origin,
+     "fan-in-of-shared-origin-with-one-branch-combined"),
 ]
 
 
